@@ -242,7 +242,12 @@ impl crate::ops::StrictOps for B {
     }
     fn validate_roundtrip<O: Lab, A: Lab>(f: &POpen<O, A>) -> Res<bool> {
         let f = build_open(f);
-        pan(catch(|| f.validate().is_ok()))
+        // a clone is the same data and validates as well
+        pan(catch(|| {
+            let g = f.clone();
+            let same = g.s == f.s && g.t == f.t && g.h.s == f.h.s && g.h.t == f.h.t && g.h.w.0 .0 == f.h.w.0 .0 && g.h.x.0 .0 == f.h.x.0 .0;
+            same && g.validate().is_ok() && f.validate().is_ok()
+        }))
     }
 
     fn layer<O: Lab, A: Lab>(f: &POpen<O, A>) -> Res<(Vec<usize>, Vec<usize>)> {
